@@ -278,6 +278,30 @@ Qed.
 Lemma pop_min_none h : pop_min h = None -> h = [].
 Proof. destruct h; [reflexivity | discriminate]. Qed.
 
+Lemma pop_named_spec n : forall h it h', pop_named h n = Some (it, h') -> exists h1 h2, h = h1 ++ it :: h2 /\ h' = h1 ++ h2.
+Proof.
+  induction h as [|x r IH]; intros it h' H; simpl in H; [discriminate|].
+  destruct (name_eqb (snd x) n).
+  - inversion H; subst. exists [], h'. split; reflexivity.
+  - destruct (pop_named r n) as [[y r']|] eqn:E; [|discriminate]. inversion H; subst.
+    destruct (IH _ _ eq_refl) as (h1 & h2 & E1 & E2). exists (x :: h1), h2. subst. split; reflexivity.
+Qed.
+
+Lemma pop_choice_spec h ch it h' ch' : pop_choice h ch = (Some (it, h'), ch') -> exists h1 h2, h = h1 ++ it :: h2 /\ h' = h1 ++ h2.
+Proof.
+  unfold pop_choice. destruct ch as [|n ch0].
+  - intros H. inversion H as [[H1 H2]]. apply pop_min_spec. exact H1.
+  - destruct (pop_named h n) as [[y r]|] eqn:E; intros H; inversion H as [[H1 H2]]; subst.
+    + apply (pop_named_spec n). exact E.
+    + apply pop_min_spec. exact H1.
+Qed.
+
+Lemma pop_choice_none h ch ch' : pop_choice h ch = (None, ch') -> h = [].
+Proof.
+  unfold pop_choice. destruct ch as [|n ch0]; [intros H; inversion H as [[H1 H2]]; apply pop_min_none; exact H1|].
+  destruct (pop_named h n) as [r|]; intros H; inversion H as [[H1 H2]]. apply pop_min_none. exact H1.
+Qed.
+
 Lemma hnames_without h n m : In m (hnames (heap_without h n)) <-> (In m (hnames h) /\ m <> n).
 Proof.
   unfold hnames, heap_without. induction h as [|[t k] h IH]; simpl; [tauto|].
@@ -418,16 +442,16 @@ Section CacheProofs.
     rewrite !app_assoc. apply Permutation_cons_append.
   Qed.
 
-  Lemma rm_loop_mid n : forall fuel claim s wr,
+  Lemma rm_loop_mid n : forall fuel claim s wr ch,
     Mid n s wr -> (length (c_heap C s) < fuel)%nat -> 0 <= claim <= c_max C s ->
-    exists s', rm_loop C fuel claim s wr = (s', RMdone) /\ Mid n s' [] /\
+    exists s', rm_loop C fuel claim s wr ch = (s', RMdone) /\ Mid n s' [] /\
                c_mem C s' + claim <= c_max C s' /\ c_disk C s' = c_disk C s /\ c_max C s' = c_max C s.
   Proof.
-    induction fuel as [|f IH]; intros claim s wr M Hf Hc; [lia|].
+    induction fuel as [|f IH]; intros claim s wr ch M Hf Hc; [lia|].
     cbn [rm_loop].
     destruct (c_mem C s + claim >? c_max C s) eqn:Egt.
-    - destruct (pop_min (c_heap C s)) as [[it h']|] eqn:Ep.
-      + destruct (pop_min_spec _ _ _ Ep) as (h1 & h2 & Eh & Eh').
+    - destruct (pop_choice (c_heap C s) ch) as [[[it h']|] ch'] eqn:Ep.
+      + destruct (pop_choice_spec _ _ _ _ _ Ep) as (h1 & h2 & Eh & Eh').
         assert (Hin : In (snd it) (hnames (c_heap C s ++ wr))).
         { rewrite Eh, hnames_app. apply in_or_app. left. unfold hnames. rewrite map_app. apply in_or_app. right. simpl. auto. }
         pose proof (mid_sub _ _ _ M _ Hin) as Hk. apply assoc_in_keys in Hk.
@@ -438,7 +462,7 @@ Section CacheProofs.
           assert (Hn : snd it = n).
           { destruct (name_eq_dec (snd it) n) as [H|H]; [exact H|].
             destruct (mid_good _ _ _ M _ _ H Ea) as [Hw _]. congruence. }
-          destruct (IH claim (mkC C (c_disk C s) (c_entries C s) h' (c_mem C s) (c_max C s)) (wr ++ [it])) as (s' & Hl & HM & Hrest).
+          destruct (IH claim (mkC C (c_disk C s) (c_entries C s) h' (c_mem C s) (c_max C s)) (wr ++ [it]) ch') as (s' & Hl & HM & Hrest).
           { destruct M as [M1 M2 M3 M4 M5 M6 M7 M8 M9 M10 M11]. constructor; cbn [c_entries c_heap c_mem c_max c_disk]; try assumption.
             - eapply Permutation_NoDup; [exact Hperm | exact M2].
             - destruct M3 as (en & A1 & A2 & A3). exists en. split; [exact A1|]. split; [exact A2|].
@@ -480,7 +504,7 @@ Section CacheProofs.
             destruct (name_eq_dec m (snd it)) as [->|Hmi]; [rewrite assoc_aremove_same in Hm; discriminate|].
             rewrite assoc_aremove_other in Hm by exact Hmi. eapply good_bytes. eapply (mid_good _ _ _ M); eassumption. }
           pose proof (good_bytes _ _ _ Hg) as Hge.
-          destruct (IH claim (mkC C (c_disk C s) (aremove (c_entries C s) (snd it)) h' (c_mem C s - e_bytes C e) (c_max C s)) wr)
+          destruct (IH claim (mkC C (c_disk C s) (aremove (c_entries C s) (snd it)) h' (c_mem C s - e_bytes C e) (c_max C s)) wr ch')
             as (s' & Hl & HM & Hrest).
           { destruct M as [M1 M2 M3 M4 M5 M6 M7 M8 M9 M10 M11]. constructor; cbn [c_entries c_heap c_mem c_max c_disk].
             - apply nodup_aremove. exact M1.
@@ -502,7 +526,7 @@ Section CacheProofs.
           { exact Hc. }
           exists s'. split; [exact Hl|]. cbn [c_disk c_max] in Hrest. exact (conj HM Hrest).
       + (* heap exhausted *)
-        apply pop_min_none in Ep.
+        apply pop_choice_none in Ep.
         eexists. split; [reflexivity|]. cbn [c_mem c_max c_disk c_entries c_heap].
         assert (Hall : forall m, In m (keys (c_entries C s)) -> m = n).
         { intros m Hm. destruct (name_eq_dec m n) as [H|H]; [exact H|].
@@ -541,14 +565,14 @@ Section CacheProofs.
   Proof. intros H. induction es as [|[k v] es IH]; simpl; [reflexivity|]. rewrite H, IH. reflexivity. Qed.
 
   (* update_file_futures_and_memory, then completion of the future, re-establishes the invariant *)
-  Lemma ufm_inv n s c t :
+  Lemma ufm_inv n s c t ch :
     Mid n s [] -> lookup C (c_disk C s) n = Some (File c) -> In n K -> cmem c <= c_max C s ->
-    exists s', ufm C s n (cmem c) t = (s', None) /\ Inv (resolve C s' (FOk c)) /\
+    exists s', ufm C s n (cmem c) t ch = (s', None) /\ Inv (resolve C s' (FOk c)) /\
                c_disk C s' = c_disk C s /\ c_max C s' = c_max C s.
   Proof.
     intros M Hl HnK Hle. unfold ufm, recover_memory.
     destruct (cmem c >? c_max C s) eqn:Egt; [rewrite Z.gtb_ltb in Egt; apply Z.ltb_lt in Egt; lia|].
-    destruct (rm_loop_mid n (S (length (c_heap C s))) (cmem c) s [] M ltac:(lia) ltac:(pose proof (Hcm c); lia))
+    destruct (rm_loop_mid n (S (length (c_heap C s))) (cmem c) s [] ch M ltac:(lia) ltac:(pose proof (Hcm c); lia))
       as (s1 & Hloop & M1 & Hfit & Hd & Hmx).
     rewrite Hloop.
     assert (Ecan : (c_mem C s1 + cmem c <=? c_max C s1) = true) by (apply Z.leb_le; exact Hfit).
@@ -584,8 +608,8 @@ Section CacheProofs.
   Proof. destruct o as [[c0|]|]; simpl; intros H; inversion H; reflexivity. Qed.
 
   (* ---- get_file ---- *)
-  Lemma get_inv s n t : Inv s -> In n K ->
-    exists s', get_file C clen cmem dirsize s n t =
+  Lemma get_inv s n t ch : Inv s -> In n K ->
+    exists s', get_file C clen cmem dirsize s n t ch =
                  (s', match file_of C (lookup C (c_disk C s) n) with
                       | None => inr FileNotFound
                       | Some c => if clen c >? c_max C s then inr MemoryErr else inl c
@@ -626,15 +650,15 @@ Section CacheProofs.
         - intros x [].
         - exact I7.
         - intros m Hm. apply keys_aset in Hm. destruct Hm as [Hm| ->]; [apply I8; exact Hm | exact HnK]. }
-      destruct (ufm_inv n s1 c t M El HnK ltac:(pose proof (Hcm c); unfold s1; cbn [c_max]; lia)) as (s' & Hu & Hi & Hd & Hm).
+      destruct (ufm_inv n s1 c t ch M El HnK ltac:(pose proof (Hcm c); unfold s1; cbn [c_max]; lia)) as (s' & Hu & Hi & Hd & Hm).
       fold s1. rewrite Hu. eexists. split; [reflexivity|]. split; [exact Hi|].
       unfold resolve. cbn [c_disk c_max]. split; [rewrite Hd | rewrite Hm]; reflexivity.
   Qed.
 
   (* ---- update_file ---- *)
-  Lemma update_inv s n c t : Inv s -> In n K ->
-    if clen c >? c_max C s then update_file C clen cmem s n c t = (s, inr MemoryErr)
-    else exists s', update_file C clen cmem s n c t = (s', inl true) /\ Inv s' /\ c_max C s' = c_max C s /\
+  Lemma update_inv s n c t ch : Inv s -> In n K ->
+    if clen c >? c_max C s then update_file C clen cmem s n c t ch = (s, inr MemoryErr)
+    else exists s', update_file C clen cmem s n c t ch = (s', inl true) /\ Inv s' /\ c_max C s' = c_max C s /\
                     lookup C (c_disk C s') n = Some (File c) /\
                     forall k, In k K -> k <> n -> file_of C (lookup C (c_disk C s') k) = file_of C (lookup C (c_disk C s) k).
   Proof.
@@ -686,7 +710,7 @@ Section CacheProofs.
       - exact Hok2.
       - intros m Hm. apply keys_aset in Hm. destruct Hm as [Hm| ->]; [|exact HnK].
         apply keys_aremove in Hm. apply I8. tauto. }
-    destruct (ufm_inv n s1 c t M Hl2 HnK ltac:(pose proof (Hcm c); unfold s1; cbn [c_max]; lia)) as (s' & Hu & Hi & Hd & Hmx).
+    destruct (ufm_inv n s1 c t ch M Hl2 HnK ltac:(pose proof (Hcm c); unfold s1; cbn [c_max]; lia)) as (s' & Hu & Hi & Hd & Hmx).
     fold s1. rewrite Hu. eexists. split; [reflexivity|]. split; [exact Hi|].
     unfold resolve. cbn [c_disk c_max]. rewrite Hd, Hmx. unfold s1. cbn [c_disk c_max].
     split; [reflexivity|]. split; [exact Hl2 | exact Hoth].
@@ -740,7 +764,7 @@ Section CacheProofs.
   (* ---------------------------------------------------------------- refinement to a dictionary *)
   Definition op_ok (o : op C) : Prop :=
     match o with
-    | OSet n _ _ | OGet n _ | OUnload n => In n K
+    | OSet n _ _ _ | OGet n _ _ | OUnload n => In n K
     | OReopen mx => 0 <= mx
     end.
 
@@ -752,8 +776,8 @@ Section CacheProofs.
                  spec_step C clen sp o = (fst (spec_step C clen sp o), x) /\
                  Inv s' /\ Rel s' (fst (spec_step C clen sp o)).
   Proof.
-    intros I [Rm Rf] Hok. destruct o as [n c t|n t|n|mx]; cbn [kvs_step spec_step op_ok] in *.
-    - pose proof (update_inv s n c t I Hok) as U. rewrite <- Rm.
+    intros I [Rm Rf] Hok. destruct o as [n c t ch|n t ch|n|mx]; cbn [kvs_step spec_step op_ok] in *.
+    - pose proof (update_inv s n c t ch I Hok) as U. rewrite <- Rm.
       destruct (clen c >? c_max C s) eqn:Egt.
       + rewrite U. exists s, (RErr MemoryErr). cbn [fst]. split; [reflexivity|]. split; [reflexivity|]. split; [exact I | split; assumption].
       + destruct U as (s' & Hu & Hi & Hmx & Hl & Hoth). rewrite Hu. exists s', RSet. cbn [fst]. split; [reflexivity|]. split; [reflexivity|].
@@ -761,7 +785,7 @@ Section CacheProofs.
         intros k Hk. destruct (name_eq_dec k n) as [->|Hne].
         * rewrite assoc_aset_same, Hl. reflexivity.
         * rewrite assoc_aset_other by exact Hne. rewrite Hoth by assumption. apply Rf. exact Hk.
-    - destruct (get_inv s n t I Hok) as (s' & Hg & Hi & Hd & Hmx). rewrite Hg. rewrite (Rf n Hok), <- Rm.
+    - destruct (get_inv s n t ch I Hok) as (s' & Hg & Hi & Hd & Hmx). rewrite Hg. rewrite (Rf n Hok), <- Rm.
       destruct (file_of C (lookup C (c_disk C s) n)) as [c|] eqn:Ef.
       + destruct (clen c >? c_max C s) eqn:Egt.
         * exists s', (RErr MemoryErr). cbn [fst]. split; [reflexivity|]. split; [reflexivity|]. split; [exact Hi|].
@@ -795,11 +819,11 @@ Section CacheProofs.
 
   Lemma step_inv s o : Inv s -> op_ok o -> Inv (fst (kvs_step C clen cmem dirsize true s o)).
   Proof.
-    intros I Hok. destruct o as [n c t|n t|n|mx]; cbn [kvs_step op_ok] in *.
-    - pose proof (update_inv s n c t I Hok) as U. destruct (clen c >? c_max C s).
+    intros I Hok. destruct o as [n c t ch|n t ch|n|mx]; cbn [kvs_step op_ok] in *.
+    - pose proof (update_inv s n c t ch I Hok) as U. destruct (clen c >? c_max C s).
       + rewrite U. exact I.
       + destruct U as (s' & Hu & Hi & _). rewrite Hu. exact Hi.
-    - destruct (get_inv s n t I Hok) as (s' & Hg & Hi & _). rewrite Hg.
+    - destruct (get_inv s n t ch I Hok) as (s' & Hg & Hi & _). rewrite Hg.
       destruct (file_of C (lookup C (c_disk C s) n)) as [c|]; [destruct (clen c >? c_max C s)|]; exact Hi.
     - apply unload_inv. exact I.
     - apply open_inv; [exact (inv_disk _ I) | exact Hok].
@@ -944,25 +968,25 @@ Section TableProofs.
   Definition stored (s : cache frame) (n : name) : option frame := file_of frame (lookup frame (c_disk frame s) n).
 
   (* a set stores the documented merge of what is stored with the new table, for every key and history *)
-  Theorem tbl_set_spec s n new t1 t2 :
+  Theorem tbl_set_spec s n new t1 t2 ch1 ch2 :
     Inv frame fmem K s -> In n K ->
     let old := match stored s n with Some f => f | None => [] end in
     (match stored s n with Some f => flen f <= c_max frame s | None => True end) ->
     flen (merge_frames old new) <= c_max frame s ->
-    exists s', tbl_set flen fmem dirsize s n new t1 t2 = (s', TSet) /\
+    exists s', tbl_set flen fmem dirsize s n new t1 t2 ch1 ch2 = (s', TSet) /\
                Inv frame fmem K s' /\ c_max frame s' = c_max frame s /\
                stored s' n = Some (merge_frames old new) /\
                forall k, In k K -> k <> n -> stored s' k = stored s k.
   Proof.
     intros I HnK old Hfit1 Hfit2. unfold tbl_set.
-    destruct (get_inv frame flen fmem dirsize Hfm K s n t1 I HnK) as (s1 & Hg & I1 & Hd1 & Hm1).
+    destruct (get_inv frame flen fmem dirsize Hfm K s n t1 ch1 I HnK) as (s1 & Hg & I1 & Hd1 & Hm1).
     rewrite Hg. unfold stored in *.
-    assert (Emerged : exists s2, update_file frame flen fmem s1 n (merge_frames old new) t2 = (s2, inl true) /\
+    assert (Emerged : exists s2, update_file frame flen fmem s1 n (merge_frames old new) t2 ch2 = (s2, inl true) /\
               Inv frame fmem K s2 /\ c_max frame s2 = c_max frame s1 /\
               lookup frame (c_disk frame s2) n = Some (File (merge_frames old new)) /\
               forall k, In k K -> k <> n ->
                 file_of frame (lookup frame (c_disk frame s2) k) = file_of frame (lookup frame (c_disk frame s1) k)).
-    { pose proof (update_inv frame flen fmem Hfm K HK s1 n (merge_frames old new) t2 I1 HnK) as U.
+    { pose proof (update_inv frame flen fmem Hfm K HK s1 n (merge_frames old new) t2 ch2 I1 HnK) as U.
       rewrite Hm1 in U. destruct (flen (merge_frames old new) >? c_max frame s) eqn:E.
       - rewrite Z.gtb_ltb in E. apply Z.ltb_lt in E. lia.
       - rewrite <- Hm1 in U. exact U. }
@@ -975,14 +999,14 @@ Section TableProofs.
       split; [rewrite Hl2; reflexivity|]. intros k Hk Hkn. rewrite Hoth, Hd1 by assumption. reflexivity.
   Qed.
 
-  Theorem tbl_get_spec s n t :
+  Theorem tbl_get_spec s n t ch :
     Inv frame fmem K s -> In n K ->
     (match stored s n with Some f => flen f <= c_max frame s | None => True end) ->
-    exists s', tbl_get flen fmem dirsize s n t = (s', match stored s n with Some f => TVal f | None => TUndef end) /\
+    exists s', tbl_get flen fmem dirsize s n t ch = (s', match stored s n with Some f => TVal f | None => TUndef end) /\
                Inv frame fmem K s' /\ c_max frame s' = c_max frame s /\ forall k, stored s' k = stored s k.
   Proof.
     intros I HnK Hfit. unfold tbl_get.
-    destruct (get_inv frame flen fmem dirsize Hfm K s n t I HnK) as (s1 & Hg & I1 & Hd1 & Hm1).
+    destruct (get_inv frame flen fmem dirsize Hfm K s n t ch I HnK) as (s1 & Hg & I1 & Hd1 & Hm1).
     rewrite Hg. unfold stored in *.
     destruct (file_of frame (lookup frame (c_disk frame s) n)) as [f|] eqn:Ef.
     - destruct (flen f >? c_max frame s) eqn:E; [rewrite Z.gtb_ltb in E; apply Z.ltb_lt in E; lia|].
@@ -1047,7 +1071,7 @@ Qed.
 
 Definition op_okb {C} (K : list name) (o : op C) : bool :=
   match o with
-  | OSet n _ _ | OGet n _ | OUnload n => existsb (name_eqb n) K
+  | OSet n _ _ _ | OGet n _ _ | OUnload n => existsb (name_eqb n) K
   | OReopen mx => Z.leb 0 mx
   end.
 
